@@ -731,4 +731,25 @@ theorem crun_spec (c : Cfg) (hM : 2 ≤ c.M) (hv : 0 < c.v) : ∀ (calls : List 
     · obtain ⟨q1, q2, q3, q4, q5⟩ := i2 ip h
       exact ⟨q1, q2, q3, by omega, q5⟩
 
+
+theorem cfull_decode_gen (c : Cfg) (hM : 2 ≤ c.M) (hv : 0 < c.v) : ∀ (k : Nat) (s : CSt), CInv c s → s.y + k ≤ c.H →
+    (crun c s (List.replicate k (.rd 1))).2.map (·.1) = List.range' s.y k ∧
+    (crun c s (List.replicate k (.rd 1))).1.y = s.y + k := by
+  intro k
+  induction k with
+  | zero => intro s _ _; simp [crun]
+  | succ k ih =>
+    intro s h hH
+    obtain ⟨q1, q2, _, q4, q5⟩ := cread_spec c hM hv s 1 0 h (by omega) (by omega) (Or.inl rfl)
+    have hl : (cread c s 1).2.length = 1 := by omega
+    obtain ⟨i1, i2⟩ := ih (cread c s 1).1 q4 (by rw [q5, hl]; omega)
+    simp only [List.replicate_succ, crun, cstep, List.map_append]
+    rw [i1, q5, hl]
+    refine ⟨?_, by rw [i2, q5, hl]; omega⟩
+    obtain ⟨p, hp⟩ : ∃ p, (cread c s 1).2 = [p] := by
+      match hh : (cread c s 1).2, hl with
+      | [p], _ => exact ⟨p, rfl⟩
+    rw [hp]
+    simp [List.range'_succ]
+
 end LJT.Skip
